@@ -331,8 +331,13 @@ impl NickelString {
             // i.e., the grapheme cluster index which starts at this byte offset.
             let adjusted_index = self
                 .grapheme_indices(true)
+                .map(|(byte_offset, _)| byte_offset)
+                // The end of the string is a cluster boundary as well, although no grapheme
+                // cluster starts there: an empty match (`b*` on `"a"`, or the empty regex) can
+                // start at `self.len()`.
+                .chain(std::iter::once(self.len()))
                 .enumerate()
-                .find_map(|(grapheme_idx, (byte_offset, _))| {
+                .find_map(|(grapheme_idx, byte_offset)| {
                     if byte_offset == first_match.start() {
                         Some(grapheme_idx.into())
                     } else {
